@@ -601,6 +601,9 @@ func (ex *Exec) Verify() {
 		renv.st = st
 		ex.bindResults(&renv, fc, fn.Signature, res)
 		for _, c := range fc.Ensures {
+			if c.Bounded {
+				continue // decided by the bounded stand-in attached to the contract
+			}
 			g, err := renv.evalBool(c.E)
 			if err != nil {
 				ex.bindingError(c, err)
